@@ -29,6 +29,7 @@ structure DocRes (cfg : X2WCfg) (lang : Lang) (r : Node) (bs : Bytes) (d : Doc) 
   view : ViewN (dcfgOf cfg lang) r (docStartW (dcfgOf cfg lang) r) st [.elem d.root]
   wfT : WfN (dcfgOf cfg lang) none r (docStartW (dcfgOf cfg lang) r) st [.elem d.root]
   viewT : ViewT (dcfgOf cfg lang) none r (docStartW (dcfgOf cfg lang) r) st [.elem d.root]
+  treeT : TreeT (dcfgOf cfg lang) none r (docStartW (dcfgOf cfg lang) r) st [.elem d.root]
 
 theorem treeToWbxml_doc (cfg : X2WCfg) (t : Tree) (bs : Bytes) (lang : Lang) (hlang : t.lang = some lang)
     (hl : langOk lang = true) (hover : treeOver lang t = true) (h : treeToWbxml cfg t = .ok bs) :
@@ -37,14 +38,14 @@ theorem treeToWbxml_doc (cfg : X2WCfg) (t : Tree) (bs : Bytes) (lang : Lang) (hl
   rw [hlang] at hl'; injection hl' with hl'; subst hl'
   simp only [treeOver, hr, Bool.and_eq_true] at hover
   have hinv0 := docStartW_inv (dcfgOf cfg lang) r
-  obtain ⟨items, hseg, hshape, _, hview, hwfT, _, hviewT⟩ := encNode_seg.1 (dcfgOf cfg lang) none true r _ rfl
+  obtain ⟨items, hseg, hshape, _, hview, hwfT, _, hviewT, htreeT⟩ := encNode_seg.1 (dcfgOf cfg lang) none true r _ rfl
     (by rw [dcfgOf_lang]; exact hl) (by rw [dcfgOf_lang]; exact hover.2) hinv0 st hrun
   obtain ⟨e, rfl⟩ := hshape hover.1
   have hinv := hseg.tbl.inv hinv0
   have hno : (dcfgOf cfg lang).useStrtbl = false → st.strtbl = [] := by
     intro hu; rw [hseg.tbl.no hu]; exact docStartW_noStrtbl _ _ hu
   refine ⟨r, { hdr := hdrOf (dcfgOf cfg lang) st, pre := [], root := e, post := [] }, st, hr,
-    ⟨hrun, ?_, rfl, rfl, rfl, hinv, hno, hseg, hview, hwfT, hviewT⟩⟩
+    ⟨hrun, ?_, rfl, rfl, rfl, hinv, hno, hseg, hview, hwfT, hviewT, htreeT⟩⟩
   rw [hbs, fillHeaderW_ser _ _ hinv hno]
   have hout := hseg.out
   rw [(docStartW_fields _ r).1, List.nil_append, serItems_single, serItem_elem] at hout
